@@ -51,6 +51,7 @@ func run(c *vrt.Ctx) {
 	h.planFuncs(add)
 	h.planCross(add)
 	h.planHistories(add)
+	h.planBoundary(add)
 	h.planDefects(add)
 
 	sort.SliceStable(jobs, func(i, j int) bool { return jobs[i].cost > jobs[j].cost })
@@ -459,6 +460,34 @@ func (h *H) planHistories(add addFn) {
 					i, n, recv, sing, vk := idx, n, recv, sing, vk
 					add("history-lu-forced", 5000, func() { h.checkLUForced(i, n, recv, sing, vk) })
 				}
+			}
+		}
+	}
+}
+
+func (h *H) planBoundary(add addFn) {
+	idx := 0
+	for rep := 0; rep < h.pick(8, 40); rep++ {
+		for n := 1; n <= 8; n++ {
+			idx++
+			i, n := idx, n
+			add("exact-boundary", 3000, func() { h.checkExactBoundary(i, n) })
+		}
+	}
+	idx = 0
+	for rep := 0; rep < h.pick(3, 8); rep++ {
+		for _, s := range h.rectsRep(1) {
+			for _, tr := range []bool{false, true} {
+				m, n := s[0], s[1]
+				if tr {
+					if m == n {
+						continue
+					}
+					m, n = n, m
+				}
+				idx++
+				i, m, n := idx, m, n
+				add("cond-relations", m*n*max(m, n)*4, func() { h.checkCondRelations(i, m, n) })
 			}
 		}
 	}
